@@ -13,15 +13,15 @@ from ..core import servers as SV
 PROPERTY = "C09"
 LEVEL = "exploration"
 RULE = (
-    "every sequence of <=3 mount entries over 5 prefixes, nested to depth <=3, x 14 paths x 2 initial root paths; every sequence of <=3 host "
+    "every sequence of <=3 mount entries over 6 prefixes (one non-ASCII), nested to depth <=3, x 16 paths x 2 initial root paths; every sequence of <=3 host "
     "patterns over 5 patterns x 13 Host values; both interfaces; each instance serves the full request list forward and backward; "
     "non-trivial = the reference selects an entry (not 404); cases are distinct by construction"
 )
 ASSUMPTIONS = ["host patterns are judged by hand-written predicates per listed pattern, not by `re`",
                "duplicate Host headers are not sent (gateway-dependent folding)"]
 
-PREFIXES = ["", "/a", "/a/b", "/ab", "/b"]
-PATHS = ["", "/", "/a", "/a/", "/ab", "/abc", "/a/b", "/a/b/", "/a/b/c", "/a/bc", "/b/a", "a", "/é", "/a//b"]
+PREFIXES = ["", "/a", "/a/b", "/ab", "/b", "/é"]
+PATHS = ["", "/", "/a", "/a/", "/ab", "/abc", "/a/b", "/a/b/", "/a/b/c", "/a/bc", "/b/a", "a", "/é", "/é/ü", "/éa", "/a//b"]
 ROOTS = ["", "/r"]
 HOST_PATTERNS = [r"a\.com", r"(www\.)?a\.com", r"a.com", r".*", r"a\.com|b\.com"]
 HOSTS = ["a.com", "www.a.com", "xa.com", "aXcom", "a.com.evil", "a.com:80", "A.COM", "", None, "a.com\n", "b.com", "b.com.evil", "www.a.comx"]
@@ -46,7 +46,8 @@ def leaf(iface, ident, log):
         from baize import wsgi as W
 
         def app(environ, start_response):
-            log.append((ident, environ.get("SCRIPT_NAME", ""), environ.get("PATH_INFO", "")))
+            dec = lambda v: v.encode("latin-1").decode("utf-8")  # WSGI-native strings -> text
+            log.append((ident, dec(environ.get("SCRIPT_NAME", "")), dec(environ.get("PATH_INFO", ""))))
             return W.PlainTextResponse(json.dumps(ident))(environ, start_response)
         return app
     from baize import asgi as A
@@ -82,8 +83,6 @@ def request(iface, app, root, path, host=None, log=None):
     req = SV.AReq(path=path, root=root, headers=headers)
     if iface == "wsgi":
         env = SV.to_environ(req)
-        env["PATH_INFO"] = path
-        env["SCRIPT_NAME"] = root
         before = {k: v for k, v in env.items()}
         res = SV.run_wsgi(app, env)
         untouched = all(env.get(k) == v for k, v in before.items()) and set(env) == set(before)
